@@ -73,10 +73,14 @@ func H_C19_rates() {
 
 // H_C19_http: ServeHTTP end to end against a recording datapath.
 //
-// Under the engine json.Unmarshal (reflection) is replaced by a stub that
-// either fails or overwrites the target with an arbitrary NetworkSlice; in the
-// native replay the body is the JSON encoding of that very NetworkSlice (or
-// malformed text), decoded by the real encoding/json.
+// Under the engine encoding/json (reflection) is replaced by stubs following
+// its documented contract over three kinds of body: a well-formed document,
+// text that is malformed from the start, and a well-formed value followed by
+// junk. json.Unmarshal accepts only the first; (*json.Decoder).Decode decodes
+// the first value of the first and third (a later call returns io.EOF resp. a
+// syntax error; More reports false resp. true). In the native replay the body is
+// the JSON encoding of that very NetworkSlice (or the malformed / trailing-junk
+// text), decoded by the real encoding/json.
 func H_C19_http() {
 	dp := &vDatapath{}
 	u := &upf{datapath: dp}
@@ -89,7 +93,8 @@ func H_C19_http() {
 		method = vStr("method")
 	}
 	readFails := vBool("read_fails")
-	malformed := vBool("malformed")
+	bodyKind := vChoose("body_kind", 3) // 0 well-formed, 1 malformed from the start, 2 well-formed value + junk
+	malformed := bodyKind != 0
 	unit := vChoose("unit", len(vUnits))
 	ns := NetworkSlice{
 		SliceName: "slice1",
@@ -111,10 +116,36 @@ func H_C19_http() {
 		vOverride("encoding/json.Marshal", func(v interface{}) ([]byte, error) {
 			return []byte("{}"), nil
 		})
-	} else if malformed {
+		decodes := 0
+		vOverride("(*encoding/json.Decoder).Decode", func(d *json.Decoder, v interface{}) error {
+			decodes++
+			if readFails {
+				return errors.New("read error")
+			}
+			if bodyKind == 1 {
+				return errors.New("invalid character")
+			}
+			if decodes > 1 {
+				if bodyKind == 0 {
+					return io.EOF
+				}
+				return errors.New("invalid character '}' looking for beginning of value")
+			}
+			if ns2, ok := v.(*NetworkSlice); ok {
+				*ns2 = ns
+			}
+			return nil
+		})
+		vOverride("(*encoding/json.Decoder).More", func(d *json.Decoder) bool {
+			return !readFails && bodyKind == 2
+		})
+	} else if bodyKind == 1 {
 		body = []byte("{\"sliceName\": ")
 	} else {
 		body, _ = json.Marshal(ns)
+		if bodyKind == 2 {
+			body = append(body, '}')
+		}
 	}
 	_ = bytes.MinRead
 	req := &http.Request{Method: method, Body: &vBody{data: body, fail: readFails}}
